@@ -5,7 +5,7 @@ CONSTANTS
   DevMultiDrop = TRUE
   DevIncomingDrop = TRUE
   DevManagedEmpty = TRUE
-  DevPollMultiLen = TRUE
+  DevPollMultiLen = FALSE
   Part = "stream"
   Feat = {"vec", "zc", "managed", "msg", "multi"}
   Sizes = {0, 1, 3, 5}
